@@ -1,5 +1,5 @@
 """C08 - c2mir lays out and passes C data exactly as the platform ABI (gcc) does.
-Exhaustive: all struct and union declarations with <=2 (thorough 3) members over a 23-member alphabet; sizeof, _Alignof,
+Exhaustive: all struct and union declarations with <=2 (thorough 3) members over a 30-member alphabet; sizeof, _Alignof,
 offsetof of every addressable member, byte image of every bit-field; by-value passing/returning of every such type of
 size <= 32 in both directions between c2mir code and gcc code at several parameter positions."""
 import itertools, os, re, subprocess, concurrent.futures as cf
@@ -10,7 +10,9 @@ M = [("char m{n};", "s", ["m{n}"], None), ("short m{n};", "s", ["m{n}"], None), 
      ("float m{n};", "f", ["m{n}"], None), ("double m{n};", "f", ["m{n}"], None), ("long double m{n};", "f", ["m{n}"], None),
      ("char m{n}[3];", "a", ["m{n}"], None), ("int m{n}[2];", "a", ["m{n}"], None),
      ("int m{n}:1;", "b", [], "s"), ("int m{n}:7;", "b", [], "s"), ("unsigned m{n}:9;", "b", [], "u"), ("short m{n}:5;", "b", [], "s"), ("char m{n}:3;", "b", [], "s"),
-     ("long m{n}:33;", "b", [], "s"), ("unsigned long m{n}:64;", "b", [], "u"), ("int :0;", "z", [], None), ("char :0;", "z", [], None), ("long :0;", "z", [], None),
+     ("long m{n}:33;", "b", [], "s"), ("unsigned long m{n}:64;", "b", [], "u"),
+     # widths that exactly fill the rest of a storage unit behind a char / short / int member
+     ("int m{n}:24;", "b", [], "s"), ("int m{n}:16;", "b", [], "s"), ("short m{n}:8;", "b", [], "s"), ("long m{n}:32;", "b", [], "s"), ("long m{n}:56;", "b", [], "s"), ("unsigned m{n}:31;", "b", [], "u"), ("int m{n}:32;", "b", [], "s"), ("int :0;", "z", [], None), ("char :0;", "z", [], None), ("long :0;", "z", [], None),
      ("struct {{ char c; }} m{n};", "n", ["m{n}", "m{n}.c"], None), ("struct {{ long l; double d; }} m{n};", "n", ["m{n}", "m{n}.l", "m{n}.d"], None),
      ("union {{ int ai{n}; float af{n}; }};", "an", ["ai{n}", "af{n}"], None), ("struct {{ char ac{n}; short as{n}; }};", "an", ["ac{n}", "as{n}"], None)]
 
@@ -239,7 +241,7 @@ def run(tier):
             for eng, (su, members), key, line in r["fails"]:
                 rep.add_fail("C08 passing engine=%s type=%s position=%s" % (eng, describe(su, members), key.split()[1]), "passing-differs", line)
     rep.coverage = dict(evaluations=nlayout + npass, distinct_nontrivial=nlayout,
-                        rule="layout: every struct and union declaration with 1..%d members over a 23-member alphabet (scalars, arrays, bit-fields of widths 1,3,5,7,9,33,64 incl. three zero-width forms, nested and anonymous aggregates): sizeof, _Alignof, offsetof of every addressable member and the byte image of every bit-field set to all ones, "
+                        rule="layout: every struct and union declaration with 1..%d members over a 30-member alphabet (scalars, arrays, bit-fields of widths 1,3,5,7,8,9,16,24,31,32,33,56,64 incl. three zero-width forms, nested and anonymous aggregates): sizeof, _Alignof, offsetof of every addressable member and the byte image of every bit-field set to all ones, "
                              "c2m -ei output against the gcc-built program; passing: every such type of size <= 32 returned from gcc code, passed to gcc code as first argument / after 5 or 6 integer / after 7 or 8 double arguments, and passed to and returned from a c2mir callback called by gcc code, under c2m -ei and -eg" % (3 if thorough else 2),
                         layout_types=nlayout, passing_checks=npass, samples=[describe(*t) for t in types[::max(1, len(types) // 5)]][:5], exhaustive=True)
     rep.assumptions = ["gcc on this machine is the platform ABI reference", "#pragma pack / attributes are not supported by c2mir and not generated"]
